@@ -404,6 +404,10 @@ def eviction_programs():
     P['write-after-seal-before-flush'] = [T, ('ks', A), ('ks', B), ('insert', A, k1, '31'), ('rotate', A), ('insert', A, k2, '32'), ('flush',), X, ('insert', B, k1, '41'), ('rotate', B), ('insert', A, k3, '33'), ('flush',), X]
     P['reopen-with-sealed-then-evict'] = [T, ('ks', A), ('ks', B), ('insert', B, k1, '41'), ('insert', B, k3, '43'), ('insert', A, k1, '31'), ('rotate', A), ('flush',), ('reopen',), ('check',), X,
                                           ('insert', A, k2, '32'), ('rotate', A), ('flush',), X, ('rotate', B), ('flush',), X, ('insert', B, k2, '42'), ('rotate', A), ('flush',), X]
+    # two keyspaces with a sealed, not yet flushed memtable each (their active memtables are empty) when the first flush tick seals the journal: both still need it.
+    # The worker messages are run one at a time with a crash image after each.
+    P['sealed-memtables-at-rotation'] = [T, ('ks', A), ('ks', B), ('insert', B, k1, '41'), ('insert', B, k2, '42'), ('rotate', B), ('insert', A, k1, '31'), ('rotate', A),
+                                         ('step',), X, ('step',), X, ('step',), X, ('step',), X, ('flush',), X, ('insert', A, k2, '32'), ('rotate', A), ('step',), X, ('flush',), X]
     P['digit-boundary'] = digit_boundary_program()
     return P
 
